@@ -31,6 +31,10 @@ type C18Scenario struct {
 	// connection failed, until it is interrupted after 5 s: every wanted address is
 	// dialled one to four times, nothing else ever
 	Tail bool `json:"tail,omitempty"`
+	// Slow: addresses that swallow the connection attempt (the dial ends in its
+	// 2 s timeout) while the client runs with one connection slot per CPU: the
+	// servers beyond the slots wait for seconds before their turn comes
+	Slow []string `json:"slow,omitempty"`
 }
 
 func c18Gen(r *Rand, tier string, i int) Scenario {
@@ -60,6 +64,16 @@ func c18Gen(r *Rand, tier string, i int) Scenario {
 	sc.FinalNL = r.Bool(0.7)
 	sc.EpochS = PickOf(r, 0, 1, r.Intn(1000000), r.Intn(1000000))
 	sc.Tail = n <= 40 && r.Bool(0.15)
+	if !sc.Tail && (n == 40 || n == 200) && r.Bool(0.3) {
+		// more distinct servers than connection slots, most of them not answering
+		sc.Entries = nil
+		for k := 0; k < n; k++ {
+			sc.Entries = append(sc.Entries, fmt.Sprintf("host%d", k))
+			if r.Bool(0.8) {
+				sc.Slow = append(sc.Slow, entryAddr(sc.Entries[k]))
+			}
+		}
+	}
 	return sc
 }
 
@@ -98,6 +112,12 @@ func c18Run(t *testing.T, s Scenario, src verifsim.DecisionSource, keep bool) *R
 			a.ServersStr = p
 		} else {
 			a.ServersStr = strings.Join(sc.Entries, ",")
+		}
+		if len(sc.Slow) > 0 {
+			a.ConnectionsPerCPU = 1
+			for _, addr := range sc.Slow {
+				w.Net.Blackhole[addr] = true
+			}
 		}
 		proc = &ClientProc{Kind: "cat", Args: a}
 		if sc.Tail {
